@@ -15,7 +15,7 @@ from ..progrun import Scenario, Name
 from . import c12
 
 RAW_KINDS = [5, -1, 0.5, True, "text", "12", "", Name("Rd"), Name("NoSuch"), Name("word"), [], [1, 2], ["a"], [[1], [2]], [Name("Rd")], [Name("Tok")],
-             {"k": "v"}, "é☃", "a\\b", 'q"uote', "snow ☃\there \\ \"x\"", {"k☃": "v\n☃"}, "in\x00put.csv", "x" * 5000]
+             {"k": "v"}, "é☃", "a\\b", 'q"uote', "snow ☃\there \\ \"x\"", "\u00b2", "1\u00b3", "\u2460", {"k☃": "v\n☃"}, "in\x00put.csv", "x" * 5000]      # ², 1³, ①: digits to str.isdigit, not to int()
 
 
 def boundary_ok(outcome):
@@ -32,7 +32,7 @@ def kind_matrix(ctx, classes, env, tmp):
         cmds = c12.producers(env) + [call]
         names = [n for n in cls.inputs if n != "Fail"]
         for name in names:
-            kinds = RAW_KINDS if ctx.thorough else rng.sample(RAW_KINDS[:-4], 5) + RAW_KINDS[-4:]
+            kinds = RAW_KINDS if ctx.thorough else rng.sample(RAW_KINDS[:-7], 5) + [rng.choice(RAW_KINDS[-7:-4])] + RAW_KINDS[-4:]
             for v in kinds:
                 args = [(n, x) for n, x in call[2] if n != name] + [(name, v)]
                 scs.append((Scenario(cmds[:-1] + [(call[0], call[1], args)], wd=tmp, libs=c12.LIBS), "kind:%s.%s" % (cls.name, name)))
@@ -245,6 +245,24 @@ def run(ctx):
         ctx.count("corrupt_outcome:" + out.split(":")[0])
         if not boundary_ok(out):
             ctx.fail("corrupted command file: %s escaped" % out, {"source": src})
+    # texts at the edge of the grammar: repeated tuple keys (the later pair wins), empty tuples/lists, a tuple where a list is expected
+    for src in ('A = N(Metadata = [k: 1, k: 2])\n', 'A = N(Metadata = [k: 1, k: 2])\nB = N(One = A)\n', 'B = N()\nA = N(Metadata = [k: a, j: b, k: c], One = B)\nC = N(One = A)\n',
+                'A = N(Metadata = [])\n', 'A = N(Many = [k: 1])\n', 'A = N(Metadata = [k: [1, 2]])\n', 'A = N(Metadata = [k: 1,])\n'):
+        try:
+            with progrun.stubbed(classes, progrun.Recorder()):
+                p = Program.from_source(src, libraries=c12.LIBS, working_dir=tmp)
+                p.run()
+                n_cmds = len(p.commands)
+            out = "ok"
+        except BaseException as e:
+            out = progrun.classify(e)
+            n_cmds = None
+        ctx.case("edge " + src, sample=None)
+        ctx.count("edge_text_outcome:" + out.split(":")[0])
+        if not boundary_ok(out):
+            ctx.fail("command file at the edge of the grammar: %s escaped" % out, {"source": src})
+        elif out == "ok" and n_cmds != src.count(" = N("):
+            ctx.fail("command file at the edge of the grammar: %d of its %d commands were loaded" % (n_cmds, src.count(" = N(")), {"source": src})
     deep_models(ctx)
     netcdf_faults(ctx, tmp)
     csv_faults(ctx, tmp)
